@@ -70,6 +70,14 @@ func init() {
 			return v.Ev == "alias_in" || v.Ev == "alias_out" || v.Ev == "readonly"
 		})
 	}})
+	register(&Check{ID: "C10", Level: "model_checking", Run: func(c *Ctx) {
+		c.R.Trusted = append(codecTrusted, "protojson / prototext of protobuf-go as the oracle for the text grammars (not modelled in TLA+)")
+		// the library algorithms drive the reflection machine: its model is checked and replayed
+		// (Range/Mutable/NewField/Append compositions), then recorded library calls are validated
+		mcReflectCheck(c, func(v ReflVerdict) bool { return !strings.HasPrefix(v.What, "nil:") })
+		codecTraceRun(c, "lib", 8, 100, func(v CodecVerdict) bool { return v.Ev == "lib" || v.Ev == "reset" })
+		c.R.Assumptions = append(c.R.Assumptions, "JSON and text SYNTAX are compared against the reference implementation's documents, not against a TLA+ grammar (DESIGN section 7)")
+	}})
 	register(&Check{ID: "C14", Level: "model_checking", Run: func(c *Ctx) {
 		c.R.Trusted = codecTrusted
 		mcCodecCheck(c, func(v EdgeVerdict) string {
